@@ -81,6 +81,14 @@ def main():
             shutil.copy(patch, os.path.join(d, "patch.diff"))
             shutil.copy(demo, os.path.join(d, "demo.py"))
             meta = {}
+            if a.skip_baseline and os.path.exists(os.path.join(d, "meta.json")):
+                # a re-run after strengthening a check: the baseline result recorded at first contact stays
+                try:
+                    old = json.load(open(os.path.join(d, "meta.json")))
+                    res["baseline"] = old.get("confirmed", {}).get("baseline", "skipped")
+                    res["first_contact"] = old.get("first_contact") or {c: v.get("outcome") for c, v in old.get("our_checks", {}).items()}
+                except Exception:
+                    pass
             if os.path.exists(metaf):
                 try:
                     meta = json.load(open(metaf))
@@ -90,7 +98,8 @@ def main():
                            files_changed=meta.get("files_changed", []), author="independent sub-agent given only the property text",
                            confirmed=dict(demo_unchanged_exit=res["demo_clean_exit"], demo_patched_exit=res["demo_patched_exit"],
                                           baseline=res.get("baseline", "skipped")),
-                           our_checks=res["checks"], what_we_ran=res["ran"]), open(os.path.join(d, "meta.json"), "w"), indent=1)
+                           our_checks=res["checks"], first_contact=res.get("first_contact") or {c: v["outcome"] for c, v in res["checks"].items()},
+                           what_we_ran=res["ran"]), open(os.path.join(d, "meta.json"), "w"), indent=1)
         print(json.dumps(res, indent=1))
         return 0
     finally:
